@@ -310,10 +310,13 @@ def gen_case(rng, tier, index):
             flds = ["sep:liquid_class", "sep:rack_id", "sep:tube_id", "sep:rack_type", "sep:forced_rack_type", "long:rack_id", "long:rack_type"]
             if op == "transfer":
                 flds += ["scheme:wash_scheme"] * 2
+        flds += ["sep:label"]
         if rng.random() < p_fault:
             f = rng.choice(flds)
             kind, fld = f.split(":")
-            if kind == "sep":
+            if f == "sep:label":
+                pass  # set below
+            elif kind == "sep":
                 base = kw.get(fld) or ""
                 k = rng.randint(0, min(len(base), 30))
                 val = (base[:k] + ";" + base[k:])[:32]
@@ -327,6 +330,8 @@ def gen_case(rng, tier, index):
             case["faults"].append(f)
         case["kw"] = enc(kw)
         case["label"] = rng.choice([None, "", "lbl", "µ-step"])
+        if "sep:label" in case["faults"]:
+            case["label"] = rng.choice(["a;b", ";", "step 1; step 2"])
         case["volume"] = rng.choice([10, 12.345, 0.5, mx])
         case["n"] = rng.randint(1, 4)
         if op in ("aspirate", "dispense") and not case["faults"] and rng.random() < 0.15:
@@ -568,6 +573,7 @@ def _run_passthrough(ctx, case):
     n = case["n"]
     v = case["volume"]
     wells = [f"{'ABCDEFGH'[i]}01" for i in range(n)]
+    src0, dst0 = src.volumes.copy(), dst.volumes.copy()
     exc = None
     try:
         if op == "aspirate":
@@ -600,9 +606,13 @@ def _run_passthrough(ctx, case):
                 key = K_RLC
         ctx.check("unrepresentable_call_raises", exc is not None, det, key=key)
         ctx.check("raising_call_appends_no_pipetting_record", bad is None and not any(r.type in ("A", "D", "R") for r in recs), det, key=key)
-        if op in ("aspirate", "dispense", "transfer") and exc is not None:
+        if exc is not None:
             # "raises and appends nothing": not even the label comment of the refused call
             ctx.check("raising_call_appends_nothing", len(new) == 0, det)
+            # ... and a call that wrote nothing has not pipetted anything either
+            untouched = bool(np.array_equal(src.volumes, src0) and np.array_equal(dst.volumes, dst0))
+            ctx.check("raising_call_leaves_the_labware_untouched", untouched,
+                      lambda: det({"source_volumes": src.volumes.tolist(), "destination_column_1": dst.volumes[:, 0].tolist()}))
         ctx.case(case, True)
         return
     if not ctx.check("representable_call_is_accepted", exc is None, det):
